@@ -670,16 +670,23 @@ def _symbolic_loop(ex, s, fr, var, start, stop, step):
 
   # state after the loop
   written = {a.arr.aid for a in body_log if a.kind != "r"}
+  # the loop is only reached on the paths where the function is still active: elsewhere nothing is forgotten
+  entry = ex.guard_now(_with_env(fr, env0)) if not getattr(ex, "fast", False) else None
+  saved_env = fr.env
+  fr.env = env0
+  entry = ex.guard_now(fr) if not getattr(ex, "fast", False) else None
+  fr.env = saved_env
   if escapes or getattr(ex, "fast", False):
     st.arrs = dict(arrs_before)
     for aid in written:
-      ex.havoc_array(st.meta[aid], "" if getattr(ex, "fast", False) else f"loop with break/return at {info.key}:{s.lineno}")
+      ex.havoc_array(st.meta[aid], "" if getattr(ex, "fast", False) else f"loop with break/return at {info.key}:{s.lineno}", guard=entry)
   else:
     summarise_stores(ex, [a for a in body_log if a.arr.aid not in gov_ids], arrs_before, st.bound, info.key, s.lineno)
     for r in gov:
-      ex.havoc_array(r)
+      ex.havoc_array(r, guard=entry)
     for aid in dirty:
-      ex.havoc_array(st.meta[aid], f"loop-carried memory dependence at {info.key}:{s.lineno}")
+      st.arrs[aid] = arrs_before[aid]
+      ex.havoc_array(st.meta[aid], f"loop-carried memory dependence at {info.key}:{s.lineno}", guard=entry)
   env_after = _copy_env(env0)
   kx = ex.fresh("kexit", "int")
   for n in carried:
